@@ -298,7 +298,7 @@ func c07Edits(base []byte, yield func(C07Case) bool) bool {
 			}
 		}
 	}
-	for _, ins := range []string{"::", "\\q", "\\x4", "\\u12", "''", "'''", "{{", "}}", "/*", "//", ",,", "00", "__", "1.5.2", "null.foo", "2001-02-30", "2001-13-01T", "2001-01-01T24:00Z", "2001-01-01T00:60Z", "2001-01-01T00:00:60Z", "2001-01-01T00:00", "+inf1", "0x", "0b2", "1e", "1d+", "\\\n", "\\uDC00", "\\uD83D", "\\uD83D\\u0041", "\"\\uDE00\"", "'\\uD800'"} {
+	for _, ins := range c07TextTokens {
 		for i := 0; i <= n; i++ {
 			d := append(append(append([]byte{}, base[:i]...), ins...), base[i:]...)
 			if !mk("insert-token", i, d) {
@@ -308,6 +308,9 @@ func c07Edits(base []byte, yield func(C07Case) bool) bool {
 	}
 	return true
 }
+
+// c07TextTokens are malformed text fragments inserted at every position.
+var c07TextTokens = []string{"::", "\\q", "\\x4", "\\u12", "''", "'''", "{{", "}}", "/*", "//", ",,", "00", "__", "1.5.2", "null.foo", "2001-02-30", "2001-13-01T", "2001-01-01T24:00Z", "2001-01-01T00:60Z", "2001-01-01T00:00:60Z", "2001-01-01T00:00", "+inf1", "0x", "0b2", "1e", "1d+", "\\\n", "\\uDC00", "\\uD83D", "\\uD83D\\u0041", "\"\\uDE00\"", "'\\uD800'", "\\U0000D800", "\\U0000dfff", "\\U0000DBFF\\uDC00", "\\uD83D\\U0000DE00", "\\U00110000", "\\U0011", "\\UFFFFFFFF", "\\U0000D83D\\U0000DE00"}
 
 // c07BinTokens are complete but invalid binary values (the property's list:
 // negative zero of every width, illegal tag/length pairs, impossible calendar
@@ -465,7 +468,15 @@ func genC07(t *rapid.T) C07Case {
 	if isBinaryDoc(base) && i < 4 {
 		i = 4 % n
 	}
-	switch gen.Intn(t, 5) {
+	switch gen.Intn(t, 6) {
+	case 5:
+		var tok []byte
+		if isBinaryDoc(base) {
+			tok = gen.Pick(t, c07BinTokens())
+		} else {
+			tok = []byte(gen.Pick(t, c07TextTokens))
+		}
+		return C07Case{Doc: append(append(append([]byte{}, base[:i]...), tok...), base[i:]...), Op: "insert-token", Pos: i}
 	case 0:
 		return C07Case{Doc: append([]byte{}, base[:i]...), Op: "truncate", Pos: i}
 	case 1:
@@ -517,7 +528,7 @@ func TestC07(t *testing.T) {
 
 func init() {
 	Describe("C07",
-		"cases: a valid base document (hand-written texts and reference binary encodings of every type, plus generated ones from the reference printer / encoder / ion-go's writers) x an edit: truncation at every offset, deletion / duplication of every byte, replacement of every byte by each value of a format-specific hostile alphabet (text: quotes, brackets, separators, digits, exponent / timestamp letters, escapes, control characters; binary: every L nibble, type-code flips, calendar values 0/13/24/32/60/61, 0x00/0x80/0xFF, version-marker and wrapper bytes), insertion of each alphabet value at every position, insertion of 27 malformed tokens (dangling ::, bad escapes, unterminated quotes / lobs / comments, doubled commas, leading zeros, bad underscores, 1.5.2, null.foo, impossible dates and times) at every position of the text bases. An edited document is a case only if the strict reference decoder rejects it for a reason in the property's list (edits that leave the document valid, or whose rejection is undecided / about symbol tables, are discarded and counted). Non-trivial: edit position strictly inside the document. Distinct by digest(edited bytes).",
+		"cases: a valid base document (hand-written texts and reference binary encodings of every type, plus generated ones from the reference printer / encoder / ion-go's writers) x an edit: truncation at every offset, deletion / duplication of every byte, replacement of every byte by each value of a format-specific hostile alphabet (text: quotes, brackets, separators, digits, exponent / timestamp letters, escapes, control characters; binary: every L nibble, type-code flips, calendar values 0/13/24/32/60/61, 0x00/0x80/0xFF, version-marker and wrapper bytes), insertion of each alphabet value at every position, insertion of 40 malformed tokens (dangling ::, bad escapes, unterminated quotes / lobs / comments, doubled commas, leading zeros, bad underscores, 1.5.2, null.foo, impossible dates and times) at every position of the text bases. An edited document is a case only if the strict reference decoder rejects it for a reason in the property's list (edits that leave the document valid, or whose rejection is undecided / about symbol tables, are discarded and counted). Non-trivial: edit position strictly inside the document. Distinct by digest(edited bytes).",
 		"oracle: differential with the strict reference decoder + validity: a traversal entering every container and reading every scalar must end with Err() != nil; five further Next() calls return false and Err() keeps returning the same error",
 		"not used as witnesses: symbol IDs above max_id and import resolution (C10), unsorted sorted-structs, invalid UTF-8 in text outside binary strings, underscores in exponents, other Ion versions, constructs the reference marks Unsupported (DESIGN 9.4 'undecided')",
 	)
